@@ -111,6 +111,8 @@ impl MT935 {
         // Parse optional field 72
         let field_72 = parser.parse_optional_field::<Field72>("72")?;
 
+        crate::parser::utils::verify_parser_complete(&parser)?;
+
         Ok(MT935 {
             field_20,
             rate_changes,
